@@ -48,8 +48,13 @@ Family ==
   \cup [kind : {"near"}, i : 1..Len(OpSeq), d : {1, 3}, t : 1..NTransforms]
   \cup [kind : {"disp"}, i : 1..Len(OpSeq), d : {3, 8}, t : {0}]
   \cup [kind : {"nest", "nestmap", "nestfilter", "nestreduce", "nestin"}, i : 1..Len(L2), d : {3}, t : {0}]
+  \* an operation is an operation wherever it stands and however ill-formed its operand list is
+  \cup [kind : {"wrong"}, i : 1..Len(OpSeq), d : {3}, t : {0}]
+  \cup [kind : {"dispin"}, i : 1..Len(OpSeq), d : {3, 8}, t : 1..7]
   \cup [kind : {"collmap", "collfilter", "collreduce", "collmerge"}, i : {q \in 1..Len(L2) : L2[q].t = "a"}, d : {3, 4}, t : {0}]
 
+\* a count the operator does NOT accept (operators accepting every count get an accepted one)
+WrongCount(k) == IF \E n \in 0..6 : ~ArityOK(k, n) THEN CHOOSE n \in 0..6 : ~ArityOK(k, n) ELSE 1
 RuleOf(cc) ==
   CASE cc.kind = "lit" -> L2[cc.i]
     [] cc.kind = "near" -> Obj(<< <<Transform(OpSeq[cc.i], cc.t), A2[BenignIdx(OpSeq[cc.i])]>> >>)
@@ -61,6 +66,16 @@ RuleOf(cc) ==
     [] cc.kind = "nestfilter" -> Op(K_filter, <<Arr(<<L2[cc.i], IntV(2)>>), True>>)
     [] cc.kind = "nestreduce" -> Op(K_reduce, <<Arr(<<L2[cc.i]>>), VarOf(S_current), IntV(0)>>)
     [] cc.kind = "nestin" -> Op(K_in, <<L2[cc.i], Arr(<<IntV(2), L2[cc.i]>>)>>)
+    [] cc.kind = "wrong" -> Op(OpSeq[cc.i], Benign(OpSeq[cc.i], WrongCount(OpSeq[cc.i]), 1))
+    [] cc.kind = "dispin" ->
+         LET inner == Obj(<< <<OpSeq[cc.i], A2[BenignIdx(OpSeq[cc.i])]>> >>) IN
+         (CASE cc.t = 1 -> Op(K_some, <<inner, True>>)                       \* as the collection of a quantifier
+           [] cc.t = 2 -> Op(K_map, <<inner, VarOf(<<>>)>>)                 \* as the collection of map
+           [] cc.t = 3 -> Op(K_notnot, <<inner>>)                           \* as an eager operand
+           [] cc.t = 4 -> Op(K_if, <<inner, IntV(1), IntV(0)>>)             \* as a condition
+           [] cc.t = 5 -> Op(K_reduce, <<Arr(<<>>), IntV(1), inner>>)       \* as the initial value of reduce
+           [] cc.t = 6 -> Op(K_var, <<Str(<<110, 111, 112, 101>>), inner>>) \* as a default expression
+           [] cc.t = 7 -> Op(K_and, <<True, inner>>))                       \* as the last operand of and
     \* a literal ARRAY (possibly with operation-shaped members) as the collection itself: members stay unevaluated
     [] cc.kind = "collmap" -> Op(K_map, <<L2[cc.i], VarOf(<<>>)>>)
     [] cc.kind = "collfilter" -> Op(K_filter, <<L2[cc.i], True>>)
@@ -106,6 +121,20 @@ LiteralCollectionsUntouched ==
      IN o.ok /\ SameValue(o.v, CASE c.kind = "collmerge" -> Arr(v.v \o v.v)
                                   [] c.kind = "collreduce" -> (IF v.v = <<>> THEN IntV(0) ELSE v.v[Len(v.v)])
                                   [] OTHER -> v)
+\* an ill-formed operation is an error, never a literal
+IllFormedOperationIsNotALiteral ==
+  phase = "done" /\ c.kind = "wrong" /\ ~ArityOK(OpSeq[c.i], WrongCount(OpSeq[c.i])) => ~Outcome(c).ok
+\* the operation is evaluated (not returned as a literal) in every operand position
+DispatchedInEveryPosition ==
+  phase = "done" /\ c.kind = "dispin" =>
+    LET inner == Obj(<< <<OpSeq[c.i], A2[BenignIdx(OpSeq[c.i])]>> >>)
+        iv == Eval(inner, DataOf(c))
+        o == Outcome(c)
+    IN iv.ok /\ CASE c.t = 3 -> o.ok /\ o.v = Bool(~IsFalsy(iv.v))
+                   [] c.t = 4 -> o.ok /\ SameValue(o.v, IF IsFalsy(iv.v) THEN IntV(0) ELSE IntV(1))
+                   [] c.t \in {5, 6, 7} -> o.ok /\ SameValue(o.v, iv.v)
+                   [] c.t = 2 -> (iv.v.t \in {"a", "z"} <=> o.ok)
+                   [] c.t = 1 -> (iv.v.t \in {"a", "s", "z"} <=> o.ok)
 ExportCases ==
   phase = "done" => Export(<<c.kind, c.i, c.d, c.t>>, RuleOf(c), DataOf(c), Outcome(c), <<"C02">>, Flags(FALSE, TRUE))
 =============================================================================
